@@ -167,9 +167,16 @@ fn gen_path(t: &Tree, workdir_arg: &str, rng: &mut Rng) -> (String, &'static str
         // guided walk over what the OS lists, so deep existing paths are reached often
         let mut cur = t.work.clone();
         for _ in 0..n {
-            let mut names: Vec<String> = match std::fs::read_dir(&cur) {
-                Ok(rd) => rd.filter_map(|e| e.ok()).map(|e| e.file_name().to_string_lossy().to_string()).collect(),
-                Err(_) => break,
+            // only list directories of the scratch tree (listing the real file system, e.g. /proc,
+            // would make the generated paths depend on the machine state)
+            let in_scratch = cur.canonicalize().map(|c| c.starts_with(&t.root)).unwrap_or(false);
+            let mut names: Vec<String> = if !in_scratch {
+                vec!["etc".into(), "passwd".into(), "tmp".into()]
+            } else {
+                match std::fs::read_dir(&cur) {
+                    Ok(rd) => rd.filter_map(|e| e.ok()).map(|e| e.file_name().to_string_lossy().to_string()).collect(),
+                    Err(_) => break,
+                }
             };
             names.sort();
             names.push("..".into());
@@ -245,6 +252,10 @@ fn path_features(path: &str, workdir: &Path) -> (bool, bool) {
     (has_dotdot, via_link)
 }
 
+fn absrel(form: &str) -> &'static str {
+    if form == "relative" { "relative" } else { "absolute" }
+}
+
 /// Oracle self-test only (`--mutant string-prefix|parent-only`): deliberately broken validators
 /// of the two shapes named in DESIGN section 6, judged by the same oracle. Never used for a verdict on /repo.
 fn mutant_validate(kind: &str, path: &str, workdir: &Path) -> Result<PathBuf, SecurityError> {
@@ -289,8 +300,8 @@ fn main() {
         rep.property = "C31-selftest".into();
     }
     let threads = ncpu();
-    let trees_per_thread = args.pick(24usize, 600usize);
-    let paths_per_tree = args.pick(250usize, 600usize);
+    let trees_per_thread = args.pick(16usize, 300usize);
+    let paths_per_tree = args.pick(200usize, 500usize);
     let scratch2 = scratch.clone();
     let parts = parallel(threads, args.seed, move |ti, mut rng| {
         let mut out = Partial::default();
@@ -360,15 +371,15 @@ fn main() {
                                 Ok(m) => {
                                     if !inside.contains(&(m.dev(), m.ino())) {
                                         out.violation(
-                                            &format!("validate_path/{}/{}/{}/{}/escapes-workdir", form, via, wd_form, which),
+                                            &format!("validate_path/{}/{}/{}/escapes-workdir", absrel(form), via, which),
                                             "validate_path accepted a path that resolves (stat) to a file or directory that is not inside the work directory",
-                                            json!({"tree": tree_json(&tree), "workdir_arg": workdir_arg, "path": path, "returned": returned.to_string_lossy(), "stat_of": p.to_string_lossy(), "dev_ino": [m.dev(), m.ino()], "expected": "member of the (dev,ino) set of a no-follow walk of work/"}),
+                                            json!({"tree": tree_json(&tree), "workdir_arg": workdir_arg, "workdir_form": wd_form, "path_form": form, "path": path, "returned": returned.to_string_lossy(), "stat_of": p.to_string_lossy(), "dev_ino": [m.dev(), m.ino()], "expected": "member of the (dev,ino) set of a no-follow walk of work/"}),
                                         );
                                     }
                                 }
                                 Err(e) => {
                                     out.violation(
-                                        &format!("validate_path/{}/{}/{}/{}/does-not-resolve", form, via, wd_form, which),
+                                        &format!("validate_path/{}/{}/{}/does-not-resolve", absrel(form), via, which),
                                         "validate_path accepted a path that does not resolve",
                                         json!({"tree": tree_json(&tree), "workdir_arg": workdir_arg, "path": path, "returned": returned.to_string_lossy(), "stat_of": p.to_string_lossy(), "error": e.to_string()}),
                                     );
@@ -401,7 +412,7 @@ fn main() {
                             let ok = std::fs::metadata(&requested_abs).map(|m| inside.contains(&(m.dev(), m.ino()))).unwrap_or(false);
                             if !ok {
                                 out.violation(
-                                    &format!("ws-load-file/{}/{}/{}/read-outside-workdir", form, via, wd_form),
+                                    &format!("ws-load-file/{}/{}/read-outside-workdir", absrel(form), via),
                                     "the WebSocket LoadFile handler read a file that is not inside the work directory",
                                     json!({"tree": tree_json(&tree), "workdir_arg": workdir_arg, "path": path, "reply": serde_json::to_value(&r).unwrap_or_default()}),
                                 );
